@@ -672,6 +672,20 @@ impl Scenario for LeapfrogScenario {
 
 pub fn gen_leapfrog_scenario(seed: u64) -> LeapfrogScenario {
     let mut r = Prng::sub(seed, "c02");
+    if r.chance(0.06) {
+        // many coordinates with a common extreme scale, target matched to the transformation (the whitened
+        // problem is a standard normal): products of scales leave the f64 range although every scale, the
+        // map, its inverse and the log-determinant (a sum of logarithms) are perfectly representable
+        let d = r.usize_in(24, 64);
+        let s = 10f64.powf(r.uniform(-9.0, 9.0));
+        let stds: Vec<f64> = (0..d).map(|_| s * r.uniform(0.5, 2.0)).collect();
+        let mean: Vec<f64> = (0..d).map(|_| s * r.uniform(-1.0, 1.0)).collect();
+        let x0: Vec<f64> = (0..d).map(|i| mean[i] + stds[i] * r.normal()).collect();
+        let v0: Vec<f64> = (0..d).map(|_| r.normal()).collect();
+        let forward = vec![true, false, true, true];
+        let kind = if r.chance(0.5) { 1 } else { 0 };
+        return LeapfrogScenario { target: Target::DiagNormal { mu: mean.clone(), sigma: stds.clone() }, transform: TransformSpec::Diag { stds, mean }, kind, step_size: r.log_uniform(0.05, 0.3), x0, v0, forward };
+    }
     let d = if r.chance(0.85) { r.usize_in(1, 10) } else { r.usize_in(11, 64) };
     let target = match r.below(5) {
         0 => crate::density::std_normal(d),
